@@ -31,6 +31,7 @@ TREES = {
     "treeA": {"x.cmake": 11, "sub/x.cmake": 11, "b.cmake": 12, "a_gen.cmake": 18, "keep_gen.cmake": 19, "sub/c_gen.cmake": 20, "sub/y.cmake": 13, "sub/Y.cmake": 23, "sub/Z.CMAKE": 14, "sub/z2.cmake": 15, "sub/deep/w.cmake": 16, "sub/notes.txt": None, "aa/q.cmake": 17},
     "treeB": {"m.cmake": 21, "k/n.cmake": 22},
     "flat": {"f1.cmake": 31, "f2.cmake": 32},
+    "std:v2": {"c1.cmake": 33, "in:ner/c2.cmake": 34},
 }
 FILES = {"solo.cmake": 41, "other.cmake": 42}
 
